@@ -9,6 +9,7 @@ CONSTANTS
   FlagSets <- Flags_few
   WithAux = TRUE
   MinCalls = 0
+  WithAsm = FALSE
 INVARIANTS WellFormedInv IndexExactInv ContentInv CrcInv StatsInv LiveStatsInv
 PROPERTY Monotone
 CHECK_DEADLOCK FALSE
